@@ -7,7 +7,7 @@ from lib.runner import Stage, Violation
 RULE = ("finite domain enumerated completely: r in -1..30 and all ordered resolution pairs/triples; get_num_cells vs "
         "len(set(cell_to_children(world, r))) for r<=7 (quick) / <=9 (thorough) and the closed form beyond; sums of children "
         "counts over every coarser level; get_num_children vs len(cell_to_children(c,b)) for cells at every a and every b "
-        "with expansion <= 4^8; composition law n(a,m)*n(m,b)=n(a,b); cell_area(r)*get_num_cells(r)=4*pi*R^2 to 1e-12, "
+        "with expansion <= 4^8, plus a few expansions of 1-6 million children; composition law n(a,m)*n(m,b)=n(a,b); cell_area(r)*get_num_cells(r)=4*pi*R^2 to 1e-12, "
         "strictly decreasing. Non-trivial = pair/triple crossing an aperture change (a<2<=b) or enumeration-backed level; "
         "every case distinct by construction.")
 ASSUMPTIONS = ["closed form 12 / 60*4^(r-1) is the intended count (backed by enumeration for r<=9)"]
@@ -133,8 +133,40 @@ def stage_area(ctx):
     col.exhaustive["cell_area r in -1..30"] = True
 
 
+def stage_large(ctx):
+    """Expansions of millions of children (where an implementation may switch to a bulk path): the count rule must still
+    equal the length of the list, which must still be the reference descendants."""
+    a5, ci = _lib()
+    limit = 1_400_000 if ctx.tier == "quick" else 6_000_000
+    jobs = []
+    for a in (0, 1, 2, 3, 7, 16):
+        for b in range(a + 9, a + 13):
+            if b <= 29 and (1 << 20) - 1 <= refids.nchildren(a, b) <= limit:
+                jobs.append((a, b))
+    for a, b in jobs[ctx.shard::ctx.nshards]:
+        for c in _sample_cells(a)[:1 if ctx.tier == "quick" else 2]:
+            case = {"t": "large", "a": a, "b": b, "cell": hex(c)}
+            want = ci.get_num_children(a, b)
+            if want != refids.nchildren(a, b):
+                raise Violation("num_children_rule", case, observed=want, expected=refids.nchildren(a, b))
+            kids = a5.cell_to_children(c, b)
+            n = len(kids)
+            if n != want:
+                raise Violation("num_children_vs_len_children", case, observed=n, expected=want)
+            if len(set(kids)) != n:
+                raise Violation("children_repeat", case, observed=n - len(set(kids)), expected=0)
+            lo, hi = refids.interval(c)
+            step = max(1, n // 5000)
+            for k in kids[::step] + kids[-3:]:
+                d = refids.dec(k)
+                if d is None or d[0] != b or not (lo <= refids.interval(k)[0] < hi):
+                    raise Violation("child_not_a_descendant", case, observed=hex(k), expected=f"a res-{b} descendant of {hex(c)}")
+            del kids
+            ctx.col.bulk(1, 1, cls="large_expansion", sample=case)
+
+
 def plan(tier):
-    return [Stage("counts", 8, stage_counts, cost=5), Stage("pairs", 16, stage_pairs, cost=5), Stage("area", 1, stage_area)]
+    return [Stage("counts", 8, stage_counts, cost=5), Stage("pairs", 16, stage_pairs, cost=5), Stage("area", 1, stage_area), Stage("large", 8, stage_large, cost=9)]
 
 
 def replay(rec, col):
@@ -142,4 +174,4 @@ def replay(rec, col):
     from lib.runner import Ctx
     t = rec["case"].get("t")
     ctx = Ctx(0, 1, 0, "quick", col, "replay")
-    {"count": stage_counts, "sum": stage_counts, "pair": stage_pairs, "triple": stage_pairs, "area": stage_area}[t](ctx)
+    {"count": stage_counts, "sum": stage_counts, "pair": stage_pairs, "triple": stage_pairs, "area": stage_area, "large": stage_large}[t](ctx)
